@@ -226,6 +226,13 @@ func (f *Frame) callByContract(ns *nodeState, x *ssa.Call, fc *FuncContract, fn 
 			}
 		}
 		out[i] = f.havocVal(res.At(i).Type(), fmt.Sprintf("%sres_%s_%d", f.prefix, sanitize(fn.Name()), i), ns.reach)
+		if isRefType(res.At(i).Type()) {
+			// a map / slice result is an object the caller may go on to modify: keep it in a location of its own
+			rt := res.At(i).Type()
+			c := ex.newCell(fmt.Sprintf("%sres_%s_%d", f.prefix, sanitize(fn.Name()), i), out[i].T.Sort, rt)
+			ns.st[c] = out[i].T
+			out[i] = Val{T: out[i].T, Origin: &LV{Cell: c, Epoch: ex.seq}}
+		}
 		post.names[fmt.Sprintf("result%d", i)] = out[i]
 		if n := res.At(i).Name(); n != "" && n != "_" {
 			post.names[n] = out[i]
